@@ -55,6 +55,7 @@ fixed("FX-C07-03", "C07", "3851b65", "null into a pre-populated []byte field kep
 fixed("FX-C04-01", "C04", "57be1d1", "own output > 512 bytes with an escaped struct key decoded with Unmarshal but not with Decoder (was KF-C04-STREAM / KF-C02-07 / KF-C02-07b; completed by b177bea, 17431c1, 9207e74)")
 fixed("FX-C06-06", "C06", "32c4673", "Decoder.Decode({\"f\":\"{\\\"A\\\":1}\"}) into struct{F *In `json:\"f,string\"`} panicked (nil pointer dereference in structDecoder.Decode: wrappedStringDecoder.DecodeStream built a RuntimeContext without Option)")
 fixed("FX-C02-05", "C02", "291bc67", "Unmarshal(\"[1e39]\", &[]float32) = nil, [+Inf] (encoding/json: UnmarshalTypeError); was KF-C02-03; literals near a float32 rounding midpoint were rounded twice")
+fixed("FX-C05-02", "C05", "d42b152", "Valid(\"tru\"), Valid(\"nul\") were true and a Decoder fed byte by byte accepted txxx for true: stream literal scanners did not compare the byte delivered by a refill and took the end of input inside a literal for success (was KF-C05-06, KF-C05-07, KF-C18-V06/V07, KF-C09-R02/R03)")
 fixed("FX-C15-01", "C15", "57be1d1", "Decoder fed 5-byte chunks failed on fully \\u-escaped keys")
 
 fixed("FX-C06-04", "C06", "0243e9f", "Compact/Indent of a 100000-deep tower: fatal out of memory / stack overflow (no nesting limit)")
@@ -101,14 +102,6 @@ known("KF-C05-05", "C05", M, STREAM, "ok-vs-err", r"relax=stream:nul-skipped",
       "internal/decoder/stream.go: every scanner treats NUL as 'refill and retry'",
       "stream-mode acceptances that need an embedded NUL",
       "same sentinel design as KF-C05-03")
-known("KF-C05-06", "C05", M, STREAM, "ok-vs-err", r"relax=stream:literal-prefix-at-EOF",
-      'Valid("tru"), Valid("nul") are true',
-      "internal/decoder/stream.go / bool.go / interface.go stream literal readers: running out of input inside true/false/null is not an error",
-      "other truncated-literal acceptances in stream mode", "stream literal scanners need an EOF check at each letter (several copies)")
-known("KF-C05-07", "C05", M, STREAM, "ok-vs-err", r"relax=stream:literal-letters-unchecked",
-      'Valid("txxx")-style inputs: letters after the first of true/false/null are not compared in some stream paths',
-      "internal/decoder stream literal readers (retry after refill skips the comparison)",
-      "other wrong-letter literal acceptances in stream mode", "as KF-C05-06")
 known("KF-C05-08", "C05", M, STREAM, "ok-vs-err", r"relax=stream:hex-unchecked",
       'Valid("\\"\\\\uZZZZ\\"") is true',
       "internal/decoder/string.go stream \\u handling does not validate the four hex digits",
@@ -132,8 +125,7 @@ known("KF-C05-12", "C05", M, "Valid", "err-vs-ok", r"valid-text-rejected:float64
 
 # ------------------------------------------------------------------ C18
 C18_VALID = [("01", r"relax=num:parsefloat-grammar", "KF-C05-01"), ("02", r"relax=str:raw-ctl", "KF-C05-02"), ("03", r"relax=nul-terminates", "KF-C05-03"),
-             ("04", r"relax=skip:unvalidated", "KF-C05-04"), ("05", r"relax=stream:nul-skipped", "KF-C05-05"), ("06", r"relax=stream:literal-prefix-at-EOF", "KF-C05-06"),
-             ("07", r"relax=stream:literal-letters-unchecked", "KF-C05-07"), ("08", r"relax=stream:hex-unchecked", "KF-C05-08"),
+             ("04", r"relax=skip:unvalidated", "KF-C05-04"), ("05", r"relax=stream:nul-skipped", "KF-C05-05"), ("08", r"relax=stream:hex-unchecked", "KF-C05-08"),
              ("09", r"relax=stream:leading-comma-or-colon-skipped", "KF-C05-09"), ("10", r"relax=stream:skip-ignores-junk-before-value", "KF-C05-10"),
              ("11", r"relax=stream:trailing-after-top", "KF-C05-11")]
 for n, ctx, same in C18_VALID:
@@ -364,7 +356,7 @@ known("KF-C15-08", "C15", "member-names", "Marshal", r"members-differ", r"embedd
 
 # ------------------------------------------------------------------ C09
 SB = "stream-vs-buffer"
-for n, rx, same in (("01", "stream:nul-skipped", "KF-C05-05"), ("02", "stream:literal-prefix-at-EOF", "KF-C05-06"), ("03", "stream:literal-letters-unchecked", "KF-C05-07"),
+for n, rx, same in (("01", "stream:nul-skipped", "KF-C05-05"), 
                     ("04", "stream:hex-unchecked", "KF-C05-08"), ("05", "stream:leading-comma-or-colon-skipped", "KF-C05-09"), ("06", "stream:skip-ignores-junk-before-value", "KF-C05-10"),
                     ("07", "stream:trailing-after-top", "KF-C05-11"), ("08", "skip:unvalidated", "KF-C05-04"), ("09", "nul-terminates", "KF-C05-03"),
                     ("10", "num:parsefloat-grammar", "KF-C05-01"), ("11", "str:raw-ctl", "KF-C05-02")):
